@@ -372,7 +372,7 @@ def guardErrText (e : GuardError) : String :=
 def teText (t : Core.TransitionError) : String := s!"{Name.toString t.event}:{kindText t.kind}"
 
 def coreTable : List String :=
-  let names := [Name.lit "alpha", Name.lit "b_2", Name.lit "zz"]
+  let names := [Name.lit "alpha", Name.lit "b_2", Name.lit "zz", Name.lit "r_rate", Name.lit "R2r"]
   let N := Name.toString
   (names.flatMap fun g => names.flatMap fun e =>
     [s!"new {N g} {N e} -> {guardErrText (GuardError.new g e)}"] ++
@@ -389,7 +389,9 @@ def coreTable : List String :=
      s!"dyn_guard {N g} {N e} -> {dynErrText (Core.dynGuard g e)}",
      s!"dyn_action {N g} {N e} -> {dynErrText (Core.dynAction g e)}"] ++
     (names.map fun o => s!"dyn_wrong {N g} {N e} {N o} -> {dynErrText (Core.dynWrong g e o)}")) ++
-  [s!"abort_guard_ident alpha zz -> abort:{teText (Core.abortGuard [] (Name.lit "alpha") (Name.lit "zz"))}",
-   s!"abort_guard_ident b_2 alpha -> abort:{teText (Core.abortGuard [] (Name.lit "b_2") (Name.lit "alpha"))}"]
+  (["zz", "alpha", "r", "rr", "ready", "r_2", "x_r", "R", "Rr", "_r", "a9"].map fun g =>
+    s!"abort_guard_ident alpha {g} -> abort:{teText (Core.abortGuard [] (Name.lit "alpha") (Name.lit g))}") ++
+  (["zz", "rate_limit", "require_badge"].map fun g =>
+    s!"abort_guard_ident r_rate {g} -> abort:{teText (Core.abortGuard [] (Name.lit "r_rate") (Name.lit g))}")
 
 end SMV.Driver
